@@ -664,8 +664,7 @@ def main(ctx):
     ctx.sample({'content_type': bases[0]['content_type'], 'body': repr(bases[0]['body'][:200])})
 
 
-def e2e(ctx, mods, bases):
-    """through real apps: req.get_media() on WSGI and ASGI, errors must become HTTP 400"""
+def e2e_clients():
     import falcon
     import falcon.asgi
     from falcon import testing
@@ -687,27 +686,37 @@ def e2e(ctx, mods, bases):
     app, aapp = falcon.App(), falcon.asgi.App()
     app.add_route('/f', Res())
     aapp.add_route('/f', ARes())
-    for which, cl in (('wsgi', testing.TestClient(app)), ('asgi', testing.TestClient(aapp))):
+    return (('wsgi', testing.TestClient(app)), ('asgi', testing.TestClient(aapp)))
+
+
+def e2e_one(ctx, which, cl, body, content_type, exp):
+    """one request through a real app; exp = expected [[name, filename, content_type, hex]] or None for
+    a damaged body (then only 200/400 are acceptable)"""
+    r = cl.simulate_post('/f', body=body, headers={'Content-Type': content_type})
+    ctx.note_case(('e2e', which, body, content_type), True)
+    ctx.count('e2e-' + which)
+    detail = {'parser': 'e2e-' + which, 'content_type': content_type,
+              'case': jsonable({'body': body, 'content_type': content_type, 'expected': exp}),
+              'status_code': r.status_code}
+    if exp is not None:
+        ok = r.status_code == 200 and r.json == exp
+        if not ok:
+            ctx.violation('e2e-multipart-roundtrip', dict(detail, got=r.text[:500], expected=exp),
+                          key='e2e-%s-%s' % (which, r.status_code))
+        return ok
+    if r.status_code not in (200, 400):
+        ctx.violation('e2e-truncated-body-not-400', dict(detail, got=r.text[:300]), key='e2e-400-' + which)
+    return True
+
+
+def e2e(ctx, mods, bases):
+    """through real apps: req.get_media() on WSGI and ASGI, errors must become HTTP 400"""
+    for which, cl in e2e_clients():
         for b in bases:
-            valid_ok = False
-            for body, valid in ((b['body'], True), (b['body'][: max(0, len(b['body']) - 3)], False)):
-                if not valid and not valid_ok:
-                    continue
-                r = cl.simulate_post('/f', body=body, headers={'Content-Type': b['content_type']})
-                ctx.note_case(('e2e', which, body), True)
-                ctx.count('e2e-' + which)
-                detail = {'parser': 'e2e-' + which, 'content_type': b['content_type'],
-                          'case': jsonable({'body': body, 'content_type': b['content_type']}),
-                          'status_code': r.status_code}
-                if valid:
-                    exp = [[p['name'], p['filename'], expected_view(p)['content_type'], p['content'].hex()]
-                           for p in b['parts']]
-                    valid_ok = r.status_code == 200 and r.json == exp
-                    if not valid_ok:
-                        ctx.violation('e2e-multipart-roundtrip', dict(detail, got=r.text[:500], expected=exp),
-                                      key='e2e-%s-%s' % (which, r.status_code))
-                elif r.status_code not in (200, 400):
-                    ctx.violation('e2e-truncated-body-not-400', dict(detail, got=r.text[:300]), key='e2e-400-' + which)
+            exp = [[p['name'], p['filename'], expected_view(p)['content_type'], p['content'].hex()]
+                   for p in b['parts']]
+            if e2e_one(ctx, which, cl, b['body'], b['content_type'], exp):
+                e2e_one(ctx, which, cl, b['body'][: max(0, len(b['body']) - 3)], b['content_type'], None)
 
 
 def replay(ctx, obj):
@@ -723,7 +732,11 @@ def replay(ctx, obj):
             p['headers'] = [[bytes(n), bytes(v)] for n, v in p['headers']]
     asyn = obj.get('parser') == 'async'
     if obj.get('parser', '').startswith('e2e'):
-        return main(ctx)
+        for which, cl in e2e_clients():
+            if obj['parser'] in ('e2e', 'e2e-' + which):
+                e2e_one(ctx, which, cl, c['body'], c['content_type'], c.get('expected'))
+        ctx.note_case('replay-pad', True)
+        return
     c.setdefault('cs', None)
     if asyn:
         c.setdefault('chunks', [c['body']])
